@@ -415,7 +415,7 @@ func CloseC20() {
 var _ = grl.PrintProgram
 
 func init() {
-	Register(&Check{ID: "C20", Level: "exploration", Sim: "D", Runs: map[string]int{"quick": 40000, "thorough": 2000000},
+	Register(&Check{ID: "C20", Level: "exploration", Sim: "D", Runs: map[string]int{"quick": 40000, "thorough": 500000},
 		Rule: "valid GRL text, JSON rule text, JSON fact text and binary knowledge-base images (from real stores) are damaged on the simulated disk with 1-4 operations from {bit flip, 8-byte length/count field overwritten with a boundary number, truncation, splice, zero-filled tail, duplicated block, inserted hostile fragment (deep nesting, huge numbers, unterminated tokens), random bytes, empty}, delivered through chunking readers, and loaded in a child process guarded by a 3 GiB heap watchdog; distinct = hash of (loader, damaged bytes); non-trivial = at least one damage operation applied",
 		Assumptions: []string{"robustness against EVERY byte string is not claimed: inputs are seeded damage of valid artefacts plus short random strings, up to about 64 KiB",
 			"allocation is measured as runtime.MemStats.TotalAlloc delta around the call; bound = 64 MiB + 64 KiB per input byte",
